@@ -16,6 +16,14 @@ Case kinds (spec['kind']):
         NotImplementedError for these type codes by construction).
 
 Oracle (model independent): see `oracle`.
+
+Finding classes of the pinned tree (`classify`); in all of them the model follows the PROPERTY:
+  periodic-seam-split                 periodic objects whose own `split(start)` is broken (few control points; C04/C07):
+                                      G2/SVG write what split returns, so the file is not the object (or the writer raises)
+  stl-2d-surface-resize               `STL.write_surface` pads 2D points with `ndarray.resize` (raises, or scrambles rational ones)
+  g2-circle-parameter-bounds-ignored  circle records with parameter bounds of an arc are read as the full circle (CHECK_ARC_BOUNDS)
+  g2-reversed-periodic-primitive      circle/ellipse records with the reversed flag: `reverse()` of a periodic curve (C06)
+  svg-nonopen-curve                   non-clamped curves: `bezier_representation` (raise_order/insert_knot, C05/C04) fails
 """
 import itertools
 import math
@@ -36,14 +44,14 @@ from vlib.compare import Err, diff, to_plain
 ID = 'C19'
 RTOL = 1e-12
 ATOL = 1e-300
-RULE = ('g2w: lists of 1-4 objects, pardim 1-3, dim 2-3, rational/non-rational, periodic/non-periodic, dyadic, full-mantissa '
+RULE = ('g2w: lists of 1-4 objects, pardim 1-3, dim 2-3, rational/non-rational, periodic/non-periodic/non-clamped, dyadic, full-mantissa '
         'and extreme-magnitude (1e-12..1e12) streams; g2r/spl: files from an independent writer with 5 number spellings, junk in '
         'unused fields, blank lines, plus malformed files; stl: surfaces and volumes, n=None/int/pair, ASCII and binary; svg: '
         'drawings of 1-3 planar non-rational curves of order 2-4 incl. periodic; prim: line/circle/ellipse/cylinder/disc/plane/'
         'torus/sphere/extrusion records with random rigid placement.  distinct = distinct protocol lines; non-trivial = all but '
         'malformed files.')
 REQUIRED_TAGS = ['g2w', 'g2r', 'spl', 'stl-binary', 'stl-ascii', 'svg', 'prim', 'periodic', 'rational', 'extreme',
-                 'full-mantissa', 'pardim=3', 'malformed', 'stl-volume', 'stl-n=None']
+                 'full-mantissa', 'pardim=3', 'malformed', 'stl-volume', 'stl-n=None', 'non-open']
 ASSUMPTIONS = ["'%.16g'/float(), '.4f', float32 packing and '%f' are trusted (the model carries exact numbers, the harness rounds)",
                'the seam split of periodic objects, bezier_representation and grid evaluation are performed by the real code on '
                'the harness side before the model is consulted (properties C07, C04/C05, C02)']
@@ -213,9 +221,30 @@ def _continuous(b):
     return all(inner.count(x) < b['order'] for x in inner)
 
 
+def _nonopen(rng, o, max_mult=None):
+    """Replace the non-periodic bases by non-clamped ones of the same order (new random control net)."""
+    bases = []
+    for b in o['bases']:
+        if b['periodic'] < 0 and b['order'] >= 2:
+            b = gen.open_basis(rng, b['order'], n_interior=rng.randint(0, 2), clamped=False,
+                               max_mult=max_mult if max_mult is not None else b['order'])
+        bases.append(b)
+    cps = np.array(o['cps'], dtype=float)
+    shape = [gen.basis_info(b)['n'] for b in bases]
+    return {'bases': bases, 'cps': gen.rand_cps(rng, shape, cps.shape[-1], o['rational']), 'rational': o['rational']}
+
+
+def _is_open(b):
+    p, kn = b['order'], b['knots']
+    return b['periodic'] >= 0 or (kn[:p] == [kn[0]] * p and kn[-p:] == [kn[-1]] * p)
+
+
 def _rand_obj(rng, stream, **kw):
     kw.setdefault('max_interior', 2)
+    nonopen = kw.pop('nonopen', 0.0)
     o = gen.rand_object(rng, **kw)
+    if rng.random() < nonopen:
+        o = _nonopen(rng, o)
     if stream == 'extreme':
         e = rng.choice([-12, -9, -6, 6, 9, 12])
         ks = 1.0
@@ -352,13 +381,13 @@ def generate(rng, tier):
     for i in range(70 if quick else 500):
         stream = ['dyadic', 'dyadic', 'full', 'extreme'][i % 4]
         nobj = rng.choice([1, 1, 2, 3]) if quick else rng.choice([1, 2, 3, 4])
-        objs = [_rand_obj(rng, stream, pmax=4 if quick else 5) for _ in range(nobj)]
+        objs = [_rand_obj(rng, stream, pmax=4 if quick else 5, nonopen=0.2) for _ in range(nobj)]
         specs.append({'kind': 'g2w', 'objs': objs, 'stream': stream})
     # ---- (b) independent writer vs real reader vs model reader
     for i in range(50 if quick else 400):
         stream = ['dyadic', 'full', 'extreme'][i % 3]
         style = STYLES[i % len(STYLES)]
-        objs = [_rand_obj(rng, stream, periodic_prob=0.0, pmax=4 if quick else 5) for _ in range(rng.choice([1, 1, 2, 3]))]
+        objs = [_rand_obj(rng, stream, periodic_prob=0.0, pmax=4 if quick else 5, nonopen=0.2) for _ in range(rng.choice([1, 1, 2, 3]))]
         ls = []
         for o in objs:
             ls += foreign_g2_record(rng, o, style)
@@ -402,6 +431,8 @@ def generate(rng, tier):
                 # at least C0, and not a single repeated point (a periodic curve with one control point)
                 if _continuous(o['bases'][0]) and gen.basis_info(o['bases'][0])['n'] >= 2:
                     break
+            if i % 10 == 9:
+                o = _nonopen(rng, o, max_mult=1)
             curves.append(_scaled(o, scale))
         pts = np.concatenate([np.array(c['cps'], dtype=float).reshape(-1, 2) for c in curves])
         if pts[:, 0].max() - pts[:, 0].min() <= 0:
@@ -1095,6 +1126,9 @@ def classify(s, res=None):
         for o in _all_objs(s):
             if not _nonperiodic(o) and _split_broken(sp, o, 4 if k == 'svg' else None):
                 return 'periodic-seam-split'
+    if k == 'svg' and msgs and any(not _is_open(c['bases'][0]) for c in s['curves']):
+        # bezier_representation (raise_order / insert_knot at the ends, C05/C04) presumes clamped ends
+        return 'svg-nonopen-curve'
     if k == 'prim' and s['prim']['type'] == 'arc':
         return 'g2-circle-parameter-bounds-ignored'
     if k == 'prim' and s['prim']['type'] in ('circle', 'ellipse') and s['prim']['swap']:
@@ -1122,6 +1156,8 @@ def tags(s, res):
         out.append('rational' if o['rational'] else 'non-rational')
         out.append('periodic' if not _nonperiodic(o) else 'non-periodic')
         out.append('dim=%d' % (np.array(o['cps']).shape[-1] - int(o['rational'])))
+    if any(not _is_open(b) for o in objs for b in o['bases']):
+        out.append('non-open')
     if s.get('stream') == 'extreme':
         out.append('extreme')
     if s.get('stream') == 'full':
